@@ -50,7 +50,8 @@ ChainVerdict(e) ==
     ELSE IF e.outcome = "cycle" THEN "false-cycle-report"
     ELSE IF e.leaf # "valid" /\ e.outcome # "error" THEN "failure-not-reported"
     ELSE IF e.leaf = "valid" /\ e.depth <= 64 /\ e.outcome # "value" THEN "failure-on-valid-acyclic-model"
-    ELSE IF e.outcome = "error" /\ e.msglen > 400 * e.depth + 400 THEN "message-size-superpolynomial"
+    \* the message may quote the formula of the failing cell (flen = the longest formula of the chain)
+    ELSE IF e.outcome = "error" /\ e.msglen > 400 * e.depth + 400 + 2 * e.flen THEN "message-size-superpolynomial"
     ELSE IF e.cpu_ms > 5 * e.depth * e.depth + 2000 THEN "time-superpolynomial"
     ELSE "ok"
 
